@@ -41,54 +41,26 @@ REGISTRY = dict(
 
 CFG = """SPECIFICATION Spec
 CONSTANTS
-  Topos = %(topos)s
-  Lays = %(lays)s
-  Fills = %(fills)s
-  MaxSlots = %(maxslots)d
-  Menus <- %(menus)s
-  ArgSel = "%(argsel)s"
+  Universes <- %(universes)s
   Fixes = %(fixes)s
 INVARIANTS Emit
 CHECK_DEADLOCK FALSE
 """
 
-ALL_LAYS = '{"none", "S", "SS", "SB", "BS", "SBB", "SSB", "inc"}'
-TIERS = {
-    "quick": [
-        # every edge kind / wrap / via / placement with one slot
-        dict(topos='{"two", "dia"}', lays='{"S"}', fills='{"n", "e"}', maxslots=1, menus="cMenus1", argsel="few"),
-        # service layouts x all filters / preserve arguments
-        dict(topos='{"two"}', lays='{"SB", "SS", "SBB", "SSB", "BS", "inc"}', fills='{"n", "r"}', maxslots=1,
-             menus="cMenusFn1", argsel="all"),
-        # two slots: parent / child chains across files
-        dict(topos='{"chain"}', lays='{"S"}', fills='{"n"}', maxslots=2, menus="cMenus2q", argsel="few"),
-    ],
-    "thorough": [
-        dict(topos='{"one", "two", "chain", "fork", "dia", "dia4"}', lays=ALL_LAYS, fills='{"n", "e", "c", "t", "r"}',
-             maxslots=1, menus="cMenus1", argsel="all"),
-        dict(topos='{"one", "two", "chain", "dia"}', lays='{"S", "SB", "SS", "none"}', fills='{"n", "e"}', maxslots=2,
-             menus="cMenus2", argsel="all"),
-        dict(topos='{"two", "chain", "dia", "dia4"}', lays='{"SBB", "SSB", "BS", "inc", "SB"}', fills='{"n", "r"}',
-             maxslots=2, menus="cMenus2f", argsel="all"),
-        dict(topos='{"chain", "dia"}', lays='{"S", "SB"}', fills='{"n"}', maxslots=3, menus="cMenus3", argsel="few"),
-    ],
-}
+# the universes are defined in spec/Trim/MC_Trim.tla (cQuick, cThorough): one TLC run per tier
+TIERS = {"quick": os.environ.get("C16_UNIVERSE", "cQuick"), "thorough": "cThorough"}
 
 
 # ------------------------------------------------------------------ generation
 def generate(ctx, fixes):
-    progs = []
     fx = "{" + ", ".join('"%s"' % f for f in fixes) + "}"
-    for k, t in enumerate(TIERS[ctx.tier]):
-        r = ctx.tlc("Trim", "MC_Trim", "gen.cfg", files={"gen.cfg": CFG % dict(t, fixes=fx)}, timeout=3000, label="MC_Trim[%d]" % k)
-        ps = ctx.tlc_cases(r)
-        if not ps:
-            raise vlib.MachineryError("TLC emitted no programs for universe %d" % k)
-        for p in ps:
-            p["u"] = k
-        progs += ps
-        r["out"] = ""
-        r["lines"] = []
+    r = ctx.tlc("Trim", "MC_Trim", "gen.cfg", files={"gen.cfg": CFG % dict(universes=TIERS[ctx.tier], fixes=fx)},
+                timeout=6000, label="MC_Trim[%s]" % TIERS[ctx.tier])
+    progs = ctx.tlc_cases(r)
+    if not progs:
+        raise vlib.MachineryError("TLC emitted no programs")
+    r["out"] = ""
+    r["lines"] = []
     # the same program can be reached in two universes: keep one
     seen = {}
     for p in progs:
@@ -131,7 +103,8 @@ def slot_sig(p):
         uc = u["c"] + (":" + u["pos"] if u["c"] == "fn" else "")
         if u["c"] == "fn":
             uc += "@S%d" % u["s"]
-        out.append("%s/%s/%s/%s/f%d%s" % (uc, sl["w"], sl["via"], sl["k"], sl["f"], "/pres" if sl["pres"] == "c" else ""))
+        out.append("%s/%s/%s/%s/f%d%s%s" % (uc, sl["w"], sl["via"], sl["k"], sl["f"], "/pres" if sl["pres"] == "c" else "",
+                                            "/dflt" if sl.get("dv") else ""))
     return ",".join(out)
 
 
@@ -151,6 +124,12 @@ def vacuity(progs):
         "a container element use": False,
         "a diamond include": False,
         "B => A counterexample or none (flag present)": False,
+        "a run that clears an `extends`": False,
+        "a run that drops an include": False,
+        "a run that removes a struct-like": False,
+        "a run that keeps a struct-like only because it is preserved": False,
+        "a run in which a filter removes a function": False,
+        "a run that keeps a service without functions": False,
     }
     for p in progs:
         G = p["G"]
@@ -168,19 +147,43 @@ def vacuity(progs):
         for d in G["defs"]:
             if d["k"] == "service" and d["ext"] and G["defs"][d["ext"] - 1]["f"] != d["f"]:
                 need["a base service in an included file"] = True
+        nsl = [i + 1 for i, d in enumerate(G["defs"]) if d["k"] in ("struct", "union", "exception")]
+        ninc = sum(len(x) for x in G["inc"])
+        nfn = sum(len(d["fns"]) for d in G["defs"])
         for c in p["cases"]:
             need["B => A counterexample or none (flag present)"] = True
+            b = c["b"]
+            if any(G["defs"][s - 1]["ext"] and s not in b["ext"] for s in b["kept"] if G["defs"][s - 1]["k"] == "service"):
+                need["a run that clears an `extends`"] = True
+            if len(b["inc"]) < ninc:
+                need["a run that drops an include"] = True
+            if any(d not in b["kept"] for d in nsl):
+                need["a run that removes a struct-like"] = True
+            if c["ar"]["pats"] and 0 < len(b["fns"]) < nfn:
+                need["a run in which a filter removes a function"] = True
+            if any(G["defs"][s - 1]["k"] == "service" and not [f for f in b["fns"] if f[0] == s] for s in b["kept"]):
+                need["a run that keeps a service without functions"] = True
+            for k, sl in enumerate(p["slots"]):
+                if sl["pres"] == "c" and sl["u"]["c"] == "none" and sl["via"] == "d" and c["ar"]["preserve"] != "off" \
+                        and not c["ar"]["nocomment"] and any(G["defs"][d - 1]["pres"] == "c" for d in b["kept"]
+                                                             if G["defs"][d - 1]["k"] in ("struct", "union", "exception")):
+                    need["a run that keeps a struct-like only because it is preserved"] = True
             for pt in c["ar"]["pats"]:
                 if pt["q"] == "exact" and pt["s"] and pt["f"] not in [fn["name"] for fn in G["defs"][pt["s"] - 1]["fns"]] \
                         and pt["f"] != "zz":
                     need["a filter that selects an inherited method"] = True
+    for p in progs:
+        for c in p["cases"]:
+            if not c.get("asat", True):
+                raise vlib.MachineryError("layer A (Trim.tla) allows no result at all for program %s arguments %s: the "
+                                          "specification is inconsistent" % (json.dumps(p["G"]), json.dumps(c["ar"])))
     missing = [k for k, v in need.items() if not v]
-    if missing:
+    if missing and not os.environ.get("C16_UNIVERSE"):
         raise vlib.MachineryError("vacuous universe, missing: " + "; ".join(missing))
 
 
 # ------------------------------------------------------------------ in-process conformance
-def harness_lines(progs, sel=None):
+def harness_lines(progs, sel=None, verbose=False):
     """one harness case per (program, argument set); returns lines and the (pi, ci) of each"""
     lines, meta = [], []
     for pi, p in enumerate(progs):
@@ -192,7 +195,8 @@ def harness_lines(progs, sel=None):
             if sel is not None and (pi, ci) not in sel:
                 continue
             args, yaml = cg.harness_args(p["G"], c["ar"])
-            lines.append({"id": len(lines), "main": "a.thrift", "files": p["texts"], "args": args, "yaml": yaml})
+            lines.append({"id": len(lines), "main": "a.thrift", "files": p["texts"], "args": args, "yaml": yaml,
+                          "verbose": verbose})
             meta.append((pi, ci))
     return lines, meta
 
@@ -220,26 +224,28 @@ def run_harness(ctx, harness, lines, tag):
 
 
 def validate(ctx, progs, rows, label):
-    """rows: {(pi, ci): R}. TLC judges every R against layer A. Returns {(pi, ci): why} for the rejected ones."""
+    """rows: {(pi, ci, source): R}. TLC judges every R against layer A (one run for all sources).
+    Returns {key: why} for the rejected ones."""
     by_prog = {}
-    for (pi, ci), R in rows.items():
-        by_prog.setdefault(pi, []).append((ci, R))
+    for key, R in rows.items():
+        by_prog.setdefault(key[0], []).append((key, R))
     order = sorted(by_prog)
     rejected = {}
-    CH = 6000
+    CH = 8000
     for off in range(0, len(order), CH):
         chunk = order[off:off + CH]
         obsf = ctx.path("obs-%s-%d.ndjson" % (label, off))
         with open(obsf, "w") as fh:
             for pi in chunk:
-                rs = sorted(by_prog[pi])
+                by_prog[pi].sort(key=lambda x: x[0])
                 fh.write(json.dumps({"G": progs[pi]["G"],
-                                     "rows": [{"ar": progs[pi]["cases"][ci]["ar"], "r": R} for ci, R in rs]},
+                                     "rows": [{"ar": progs[pi]["cases"][key[1]]["ar"], "r": R} for key, R in by_prog[pi]]},
                                     separators=(",", ":")))
                 fh.write("\n")
-        r = ctx.tlc("Trim", "Trace_Trim", "Trace_Trim", files={"obs.ndjson": obsf}, timeout=3000,
+        r = ctx.tlc("Trim", "Trace_Trim", "Trace_Trim", files={"obs.ndjson": obsf}, timeout=6000,
                     label="Trace_Trim[%s+%d]" % (label, off))
         acc = {}
+        nrej = {}
         for s in r["lines"]:
             if s.startswith("ACC "):
                 _, ln, n = s.split()
@@ -247,13 +253,12 @@ def validate(ctx, progs, rows, label):
             elif s.startswith("REJ "):
                 _, ln, k, why = s.split(" ", 3)
                 pi = chunk[int(ln) - 1]
-                ci = sorted(by_prog[pi])[int(k) - 1][0]
-                rejected[(pi, ci)] = why
+                rejected[by_prog[pi][int(k) - 1][0]] = why
+                nrej[pi] = nrej.get(pi, 0) + 1
         for j, pi in enumerate(chunk):
             if (j + 1) not in acc:
                 raise vlib.MachineryError("TLC did not judge observation line %d of %s" % (j + 1, label))
-            nrej = sum(1 for (a, _) in rejected if a == pi)
-            if acc[j + 1] + nrej != len(by_prog[pi]):
+            if acc[j + 1] + nrej.get(pi, 0) != len(by_prog[pi]):
                 raise vlib.MachineryError("TLC accepted+rejected != rows on line %d of %s" % (j + 1, label))
         if not os.environ.get("VERIF_KEEP"):
             os.remove(obsf)
@@ -282,7 +287,7 @@ def case_class(p, c):
     return "%s %s %s %s" % (prog_class(p), slot_sig(p), filter_kind(c["ar"]), pres_kind(c["ar"]))
 
 
-def inproc_phase(ctx, harness, progs):
+def inproc_observe(ctx, harness, progs):
     lines, meta = harness_lines(progs)
     vlib.log("in-process: %d programs, %d cases" % (len(progs), len(lines)))
     obs = run_harness(ctx, harness, lines, "main")
@@ -292,61 +297,58 @@ def inproc_phase(ctx, harness, progs):
             raise vlib.MachineryError("the universe contains a program thriftgo does not accept: %s\n%s" % (
                 o["pre_err"], json.dumps(progs[pi]["texts"], indent=1)))
         R, why = cg.inproc_result(progs[pi]["G"], o)
-        rows[(pi, ci)] = R
-        whys[(pi, ci)] = why
-        progs[pi]["cases"][ci]["obs_pre"] = o.get("pre")
-        progs[pi]["cases"][ci]["R"] = R
-    rejected = validate(ctx, progs, rows, "inproc")
-    # B-only counterexamples: B predicts a violation of A the real code does not show -> B is a wrong transcription
+        rows[(pi, ci, "inproc")] = R
+        whys[(pi, ci, "inproc")] = why
+    return rows, whys
+
+
+def inproc_judge(ctx, harness, progs, rows, whys, rejected):
+    """rejected: the TLC verdicts for the in-process rows. Records violations; returns the B-only counterexamples."""
     stale_b = []
     agree = 0
-    for (pi, ci), R in rows.items():
+    for (pi, ci, _), R in rows.items():
         c = progs[pi]["cases"][ci]
         ctx.count(1, case_class(progs[pi], c))
         b = c["b"]
         same = (sorted(b["kept"]) == R["kept"] and sorted(map(tuple, b["fns"])) == sorted(map(tuple, R["fns"]))
                 and sorted(map(tuple, b["inc"])) == sorted(map(tuple, R["inc"])) and sorted(b["ext"]) == sorted(R["ext"]))
         agree += 1 if same else 0
-        if not c["bok"] and (pi, ci) not in rejected:
+        if not c["bok"] and (pi, ci, "inproc") not in rejected:
             stale_b.append((pi, ci))
     ctx.extra_cov["layerB_predicts_real_result"] = "%d of %d cases" % (agree, len(rows))
     ctx.extra_cov["layerB_counterexamples_to_A"] = sum(1 for p in progs for c in p["cases"] if not c["bok"])
     # re-execute the rejected cases once (flakiness)
     if rejected:
-        sel = set(rejected)
-        l2, m2 = harness_lines(progs, sel)
+        sel = {(pi, ci) for (pi, ci, _) in rejected}
+        l2, m2 = harness_lines(progs, sel, verbose=True)
         o2 = run_harness(ctx, harness, l2, "again")
         for o, (pi, ci) in zip(o2, m2):
             R2, _ = cg.inproc_result(progs[pi]["G"], o)
-            if R2 != rows[(pi, ci)]:
+            if R2 != rows[(pi, ci, "inproc")]:
                 raise vlib.MachineryError("flaky observation for program %d case %d" % (pi, ci))
-    for (pi, ci), why in sorted(rejected.items()):
+            progs[pi]["cases"][ci]["verbose_obs"] = {k: o.get(k) for k in ("t1", "dumped", "rp", "t2", "changed")}
+    for key, why in sorted(rejected.items()):
+        pi, ci, _ = key
         p, c = progs[pi], progs[pi]["cases"][ci]
-        det = detail_of(why, whys[(pi, ci)])
+        det = detail_of(why, whys[key])
         cls = {"check": "C16.inproc", "kind": why, "detail": det, "filter": filter_kind(c["ar"]) != "nofilter",
                "lay": p["lay"]}
         args, yaml = cg.harness_args(p["G"], c["ar"])
         ctx.violation(cls, {"G": p["G"], "ar": c["ar"], "files": p["texts"], "args": args, "yaml": yaml,
                             "descr": {"topo": p["topo"], "lay": p["lay"], "fill": p["fill"], "slots": p["slots"]}},
-                      {"R": rows[(pi, ci)], "why": whys[(pi, ci)]},
+                      {"R": rows[key], "why": whys[key], "harness": c.get("verbose_obs")},
                       "a result Allowed by spec/Trim/Trim.tla (layer B predicted: %s)" % json.dumps(c["b"]),
                       "real trim.TrimAST result rejected by layer A: %s (%s)" % (why, det))
-    if stale_b:
-        pi, ci = stale_b[0]
-        raise vlib.MachineryError(
-            "layer B (TrimImpl.tla) predicts a violation of layer A that the real code does not show in %d case(s): "
-            "the transcription is stale, e.g. program %s arguments %s" % (
-                len(stale_b), json.dumps(progs[pi]["texts"]), json.dumps(progs[pi]["cases"][ci]["ar"])))
-    ok = [(pi, ci) for (pi, ci) in rows if (pi, ci) not in rejected]
+    ok = [k for k in rows if k not in rejected]
     if ok:
-        pi, ci = ok[len(ok) // 2]
+        pi, ci, _ = sorted(ok)[len(ok) // 2]
         ctx.sample({"files": progs[pi]["texts"], "args": cg.harness_args(progs[pi]["G"], progs[pi]["cases"][ci]["ar"]),
-                    "observed_result": rows[(pi, ci)]})
-    return rows, rejected
+                    "observed_result": rows[(pi, ci, "inproc")]})
+    return stale_b
 
 
 # ------------------------------------------------------------------ the trimmer binary
-def binary_phase(ctx, harness, trimmer, progs, rows, rejected_inproc, budget):
+def binary_observe(ctx, harness, trimmer, progs, budget):
     """`trimmer -r` on the rendered files of a subset; the files written are parsed, checked and resolved, summarised
     and judged by TLC like the in-process results."""
     cand = []
@@ -365,7 +367,8 @@ def binary_phase(ctx, harness, trimmer, progs, rows, rejected_inproc, budget):
     pick = []
     for key in sorted(strata):
         pick.append(rnd.choice(strata[key]))
-    rest = [x for x in cand if x not in set(pick)]
+    ps = set(pick)
+    rest = [x for x in cand if x not in ps]
     rnd.shuffle(rest)
     pick = (pick + rest)[:budget] if len(pick) < budget else rnd.sample(pick, budget)
     root = ctx.mkdir("bin-cases")
@@ -410,10 +413,15 @@ def binary_phase(ctx, harness, trimmer, progs, rows, rejected_inproc, budget):
     lines = []
     for k, (rc, err, files, cmd) in enumerate(outs):
         lines.append({"id": k, "main": "a.thrift", "files": files if "a.thrift" in files else {"a.thrift": ""}, "args": {}})
+    upis = sorted({pi for pi, _ in pick})
+    for pi in upis:     # the untrimmed programs (signatures for the meaning comparison)
+        lines.append({"id": len(lines), "main": "a.thrift", "files": progs[pi]["texts"], "args": {}})
     inf, outf = ctx.path("bin.in.ndjson"), ctx.path("bin.out.ndjson")
     vlib.write_ndjson(inf, lines)
     ctx.run([harness, "idlsum", inf, outf], timeout=1200)
     sums = vlib.read_ndjson(outf)
+    presum = {pi: sums[len(outs) + j]["sum"] for j, pi in enumerate(upis)}
+    sums = sums[:len(outs)]
     brow, bwhy = {}, {}
     for k, ((pi, ci), (rc, err, files, cmd), s) in enumerate(zip(pick, outs, sums)):
         G = progs[pi]["G"]
@@ -425,7 +433,7 @@ def binary_phase(ctx, harness, trimmer, progs, rows, rejected_inproc, budget):
         elif t.get("err") or t.get("panic"):
             why.append("dumped IDL rejected: " + (t.get("err") or t.get("panic"))[:300])
         else:
-            r, problems, changed = cg.tree_result(G, t, progs[pi]["cases"][ci].get("obs_pre"))
+            r, problems, changed = cg.tree_result(G, t, presum[pi])
             R.update(r)
             why += problems
             if t.get("stale"):
@@ -434,28 +442,31 @@ def binary_phase(ctx, harness, trimmer, progs, rows, rejected_inproc, budget):
                 R["same"] = False
                 why.append("definitions changed: " + ", ".join(changed[:4]))
         R["ok"] = not [w for w in why if not w.startswith("definitions changed")]
-        brow[(pi, ci)] = R
-        bwhy[(pi, ci)] = why
+        brow[(pi, ci, "binary")] = R
+        bwhy[(pi, ci, "binary")] = why
         ctx.count(1, "binary " + case_class(progs[pi], progs[pi]["cases"][ci]))
-    rej = validate(ctx, progs, brow, "binary")
-    for (pi, ci), why in sorted(rej.items()):
-        p, c = progs[pi], progs[pi]["cases"][ci]
-        det = detail_of(why, bwhy[(pi, ci)])
-        k = pick.index((pi, ci))
-        cls = {"check": "C16.binary", "kind": why, "detail": det, "filter": filter_kind(c["ar"]) != "nofilter", "lay": p["lay"]}
-        ctx.violation(cls, {"G": p["G"], "ar": c["ar"], "files": p["texts"], "cmd": outs[k][3][1:]},
-                      {"R": brow[(pi, ci)], "why": bwhy[(pi, ci)], "written": outs[k][2]},
-                      "a result Allowed by spec/Trim/Trim.tla",
-                      "files written by `trimmer -r` rejected by layer A: %s (%s)" % (why, det))
-    # the binary and the library are the same algorithm: note disagreements (not a verdict)
-    dis = sum(1 for key, R in brow.items() if key in rows and (R["kept"], sorted(map(tuple, R["fns"]))) !=
-              (rows[key]["kept"], sorted(map(tuple, rows[key]["fns"]))))
     ctx.extra_cov["binary_cases"] = len(pick)
-    ctx.extra_cov["binary_differs_from_inproc"] = dis
     if pick:
         k = len(pick) // 2
         ctx.sample({"trimmer_cmd": outs[k][3][1:], "written": outs[k][2]})
-    return rej
+    return brow, bwhy, {key: outs[k] for k, key in enumerate(pick)}
+
+
+def binary_judge(ctx, progs, brow, bwhy, outs, rows, rejected):
+    for key, why in sorted(rejected.items()):
+        pi, ci, _ = key
+        p, c = progs[pi], progs[pi]["cases"][ci]
+        det = detail_of(why, bwhy[key])
+        cls = {"check": "C16.binary", "kind": why, "detail": det, "filter": filter_kind(c["ar"]) != "nofilter", "lay": p["lay"]}
+        ctx.violation(cls, {"G": p["G"], "ar": c["ar"], "files": p["texts"], "cmd": outs[(pi, ci)][3][1:]},
+                      {"R": brow[key], "why": bwhy[key], "written": outs[(pi, ci)][2]},
+                      "a result Allowed by spec/Trim/Trim.tla",
+                      "files written by `trimmer -r` rejected by layer A: %s (%s)" % (why, det))
+    # the binary and the library are the same algorithm: note disagreements (not a verdict)
+    dis = sum(1 for (pi, ci, _), R in brow.items() if (pi, ci, "inproc") in rows and
+              (R["kept"], sorted(map(tuple, R["fns"]))) !=
+              (rows[(pi, ci, "inproc")]["kept"], sorted(map(tuple, rows[(pi, ci, "inproc")]["fns"]))))
+    ctx.extra_cov["binary_differs_from_inproc"] = dis
 
 
 # ------------------------------------------------------------------ trim_idl: generated code
@@ -480,7 +491,7 @@ def lab_phase(ctx, progs, rows, rejected, nprog):
         for ci, c in enumerate(p["cases"]):
             ar = c["ar"]
             if not ar["pats"] and ar["preserve"] == "unset" and not ar["plist"] and not ar["nocomment"] and not ar.get("yaml"):
-                if (pi, ci) not in rejected:
+                if (pi, ci, "inproc") not in rejected:
                     cand.append((pi, ci))
     strata = {}
     for pi, ci in cand:
@@ -536,9 +547,10 @@ def lab_phase(ctx, progs, rows, rejected, nprog):
                           "thriftgo -g go:trim_idl fails on a program it accepts without trim_idl")
             continue
         # generated struct-likes = kept struct-likes of the validated in-process result
-        R = rows[(pi, ci)]
+        R = rows[(pi, ci, "inproc")]
         G = p["G"]
-        exp = {(cg.fprefix(G["defs"][d - 1]["f"]), cg.dname(G, d)) for d in R["kept"] if G["defs"][d - 1]["k"] in ("struct", "union", "exception")}
+        exp = {(cg.go_pkg(p["prog"], G["defs"][d - 1]["f"]), cg.dname(G, d)) for d in R["kept"]
+               if G["defs"][d - 1]["k"] in ("struct", "union", "exception")}
         got = set()
         for f in t.files:
             if not f.endswith(".go"):
@@ -556,28 +568,33 @@ def lab_phase(ctx, progs, rows, rejected, nprog):
         usable.append(k)
     ok, out = lab.build_all()
     if not ok:
-        # attribute to cases: a failure inside g/u<k> is not about trimming
+        # attribute to cases: a failure inside g/u<k> is not about trimming (C01 territory) -> that program leaves the lab
         bad_t = sorted(set(re.findall(r"g/(t\d+)/", out)))
         bad_u = sorted(set(re.findall(r"g/(u\d+)/", out)))
-        if bad_u:
-            raise vlib.MachineryError("generated code of an UNTRIMMED universe program does not compile (C01 territory, "
-                                      "take the shape out of the lab subset): %s" % out[-2500:])
+        if not bad_t and not bad_u:
+            raise vlib.MachineryError("lab build failed: %s" % out[-2500:])
+        if len(bad_u) > len(pick) // 2:
+            raise vlib.MachineryError("generated code of most UNTRIMMED lab programs does not compile: %s" % out[-2500:])
+        for cid in bad_u:
+            ctx.notes.append("untrimmed generated code does not compile (not judged here): %s" %
+                             json.dumps(progs[pick[int(cid[1:])][0]]["texts"]))
+        ubad = {int(c[1:]) for c in bad_u}
         for cid in bad_t:
             k = int(cid[1:])
+            if k in ubad:
+                continue
             pi, ci = pick[k]
             ctx.violation({"check": "C16.trim_idl", "kind": "does-not-compile", "lay": progs[pi]["lay"]},
                           {"files": progs[pi]["texts"], "cmd": lab.cases[cid].cmd[1:]}, out[-3000:], "go build succeeds",
                           "code generated with trim_idl does not compile")
-        if not bad_t:
-            raise vlib.MachineryError("lab build failed: %s" % out[-2500:])
-        usable = [k for k in usable if ("t%d" % k) not in bad_t]
+        usable = [k for k in usable if ("t%d" % k) not in bad_t and k not in ubad]
     # wire behaviour of kept types: same write traces from the untrimmed and the trimmed package
     regs, plan = [], []
     schemas = {}
     for k in usable:
         pi, ci = pick[k]
         G = progs[pi]["G"]
-        R = rows[(pi, ci)]
+        R = rows[(pi, ci, "inproc")]
         prog = progs[pi]["prog"]
         for cid in ("u%d" % k, "t%d" % k):
             c = lab.cases[cid]
@@ -585,7 +602,7 @@ def lab_phase(ctx, progs, rows, rejected, nprog):
                 df = G["defs"][d - 1]
                 if df["k"] in ("struct", "union", "exception"):
                     name = cg.dname(G, d)
-                    ip = "labmod/g/%s/%s" % (cid, cg.fprefix(df["f"]))
+                    ip = "labmod/g/%s/%s" % (cid, cg.go_pkg(prog, df["f"]))
                     regs.append((cid, name, ip, "New" + name))
         try:
             sc = schemalib.schema_of(prog)
@@ -671,13 +688,29 @@ def run(ctx, args):
     vacuity(progs)
     ncases = sum(len(p["cases"]) for p in progs)
     vlib.log("universe: %d programs, %d cases" % (len(progs), ncases))
-    rows, rejected = inproc_phase(ctx, harness, progs)
-    binary_phase(ctx, harness, trimmer, progs, rows, rejected, 6000 if thorough else 700)
-    lab_phase(ctx, progs, rows, rejected, 150 if thorough else 24)
+    rows, whys = inproc_observe(ctx, harness, progs)
+    skip = os.environ.get("C16_SKIP", "").split(",")     # development only
+    brow, bwhy, bouts = {}, {}, {}
+    if "binary" not in skip:
+        brow, bwhy, bouts = binary_observe(ctx, harness, trimmer, progs, 6000 if thorough else 700)
+    allrows = dict(rows)
+    allrows.update(brow)
+    rejected = validate(ctx, progs, allrows, "all")
+    stale_b = inproc_judge(ctx, harness, progs, rows, whys, {k: v for k, v in rejected.items() if k[2] == "inproc"})
+    binary_judge(ctx, progs, brow, bwhy, bouts, rows, {k: v for k, v in rejected.items() if k[2] == "binary"})
+    if "lab" not in skip:
+        lab_phase(ctx, progs, rows, rejected, 150 if thorough else 24)
+    if stale_b and not ctx.violations:
+        # B-only counterexamples: B predicts a violation of A the real code does not show -> B is a wrong transcription
+        pi, ci = stale_b[0]
+        raise vlib.MachineryError(
+            "layer B (TrimImpl.tla) predicts a violation of layer A that the real code does not show in %d case(s): "
+            "the transcription is stale, e.g. program %s arguments %s" % (
+                len(stale_b), json.dumps(progs[pi]["texts"]), json.dumps(progs[pi]["cases"][ci]["ar"])))
     ctx.exhaustive = True
     return ctx.finish(
-        rule="programs = every program of the bounded universes of checks/c16.py TIERS (include topology x service layout x "
-             "filler definitions x slots, TLC BFS over spec/Trim/MC_Trim.tla); cases = programs x ArgMenu (method patterns, "
+        rule="programs = every program of the bounded universes cQuick / cThorough of spec/Trim/MC_Trim.tla (include topology x "
+             "service layout x filler definitions x slots, TLC BFS); cases = programs x ArgMenu (method patterns, "
              "preserve, comment switch, preserved-struct list, yaml); every case through trim.TrimAST in-process and judged "
              "by TLC against layer A; stratified subsets through the trimmer binary and through thriftgo trim_idl. "
              "distinct class = (topology, layout with service files, fillers, slot signatures, filter kind, preserve kind)",
@@ -700,9 +733,9 @@ def replay(ctx, harness, path):
     lines, meta = harness_lines([p])
     obs = run_harness(ctx, harness, lines, "replay")
     R, why = cg.inproc_result(G, obs[0])
-    rej = validate(ctx, [p], {(0, 0): R}, "replay")
+    rej = validate(ctx, [p], {(0, 0, "inproc"): R}, "replay")
     ctx.count(1, "replay")
     if rej:
         ctx.violation(rp.get("class", {"check": "C16.inproc"}), case, {"R": R, "why": why}, "Allowed by Trim.tla",
-                      "replayed case still rejected: %s" % rej[(0, 0)])
+                      "replayed case still rejected: %s" % rej[(0, 0, "inproc")])
     return ctx.finish("replay of one case")
